@@ -319,12 +319,26 @@ def make_fault(gen, v, rng, kind=None):
     if kind == "outside-container":
         # an operand that does not belong to the envelope / composite the request is made on
         envs = [e for e in w.envs if v["env_ok"][e]]
-        if len(envs) >= 2 and rng.random() < 0.5:
+        if len(envs) >= 2 and rng.random() < 0.6:
             e1, e2 = [str(x) for x in rng.choice(envs, size=2, replace=False)]
-            t = e2 + ".p"
-            if t not in lv:
+            t = e2 + (".p" if rng.random() < 0.5 else ".f")
+            if t not in lv or not (sn.subs[t]["dims"] and sn.subs[t]["dims"] > 0):
                 return None
-            return {"k": "apply", "op": {"fam": "pol", "type": "X"}, "targets": [t], "via": "env", "env": e1, "fault": kind}
+            x = rng.random()
+            d = v["dims"][t]
+            if x < 0.3:
+                op = {"fam": "pol", "type": "X"} if t.endswith(".p") else {"fam": "fock", "type": "Creation"}
+                return {"k": "apply", "op": op, "targets": [t], "via": "env", "env": e1, "fault": kind}
+            if x < 0.6:
+                Ks = ref.kraus_from_dilation(rng, d, 2)
+                return {"k": "kraus", "ops": [c2j(K) for K in Ks], "targets": [t], "via": "env", "env": e1, "fault": kind}
+            if x < 0.8:
+                Ms = ref.povm_set(rng, d, 2)
+                return {"k": "povm", "ops": [c2j(M) for M in Ms], "targets": [t], "via": "env", "env": e1, "fault": kind,
+                        "destr": bool(rng.random() < 0.5)}
+            if x < 0.9:
+                return {"k": "measure", "targets": [t], "via": "env", "env": e1, "fault": kind, "sep": True}
+            return {"k": "reorder", "targets": [t], "via": "env", "env": e1, "fault": kind}
         groups = v["handles"]
         if not groups:
             return None
@@ -333,8 +347,20 @@ def make_fault(gen, v, rng, kind=None):
         if not outsiders:
             return None
         t = pick(outsiders)
-        return {"k": "apply", "op": {"fam": "pol", "type": "X"}, "targets": [t], "via": "ce", "ce": pick(groups[g]), "fault": kind,
-                "note": "operand not a member of this composite"}
+        x = rng.random()
+        if x < 0.4:
+            return {"k": "apply", "op": {"fam": "pol", "type": "X"}, "targets": [t], "via": "ce", "ce": pick(groups[g]), "fault": kind,
+                    "note": "operand not a member of this composite"}
+        if x < 0.7:
+            Ks = ref.kraus_from_dilation(rng, 2, 2)
+            return {"k": "kraus", "ops": [c2j(K) for K in Ks], "targets": [t], "via": "ce", "ce": pick(groups[g]), "fault": kind}
+        if x < 0.85:
+            insiders = [n for n in lv if v["member_of"].get(n) == g and w.kind(n) == "P"]
+            if not insiders:
+                return None
+            return {"k": "apply", "op": {"fam": "comp", "type": "CXPolarization"}, "targets": [pick(insiders), t], "via": "ce",
+                    "ce": pick(groups[g]), "fault": kind}
+        return {"k": "combine", "targets": [t], "via": "ce", "ce": pick(groups[g]), "fault": kind}
     if kind == "annihilate-vacuum":
         focks = [n for n in lv if w.kind(n) == "F"]
         vac = []
